@@ -33,6 +33,11 @@ ANCHORS = [
     ("src/easynetwork/lowlevel/api_async/servers/stream.py", "_BufferedRequestReceiver.next"),
     ("src/easynetwork/lowlevel/api_async/servers/stream.py", "ConnectedStreamClient.aclose"),
     ("src/easynetwork/lowlevel/api_async/servers/stream.py", "ConnectedStreamClient.send_packet"),
+    ("src/easynetwork/lowlevel/api_async/backend/_asyncio/stream/socket.py", "StreamReaderBufferedProtocol.get_buffer"),
+    ("src/easynetwork/lowlevel/api_async/backend/_asyncio/stream/socket.py", "StreamReaderBufferedProtocol.buffer_updated"),
+    ("src/easynetwork/lowlevel/api_async/backend/_asyncio/stream/socket.py", "StreamReaderBufferedProtocol.receive_data"),
+    ("src/easynetwork/lowlevel/api_async/backend/_asyncio/stream/socket.py", "StreamReaderBufferedProtocol.receive_data_into"),
+    ("src/easynetwork/lowlevel/api_async/backend/_asyncio/stream/socket.py", "StreamReaderBufferedProtocol._wait_for_data"),
     ("src/easynetwork/lowlevel/_asyncgen.py", "SendAction.asend"),
     ("src/easynetwork/lowlevel/_asyncgen.py", "ThrowAction.asend"),
     ("src/easynetwork/lowlevel/_asyncgen.py", "anext_without_asyncgen_hook"),
@@ -53,6 +58,11 @@ RULE = ("request stream = 0-4 frames (valid / undecodable / empty payload) + opt
         "coroutine; max_recv_size in {1,2,3,64}.  Then pairs of such connections (same protocol, independent peers/strategies, "
         "shifted arrival times) are served CONCURRENTLY by one AsyncStreamServer with one request-handler object; each "
         "connection's observables must equal the model's isolated run (independence).  "
+        "End-to-end family: one connection of the real server over the REAL asyncio stream transport "
+        "(StreamReaderBufferedProtocol + socket adapter, harness = selector), a handler that only yields timeouts, read events "
+        "one tick before / exactly at (both timer orders) / after the expiry of the yielded timeout; the handler must see the "
+        "whole decoding of the stream.  One-chunk streams with every order of valid/malformed frames.  Strict and lenient "
+        "transports (recv after aclose).  "
         "Non-trivial = at least one generator restart with a request still to "
         "come, or a parse error thrown, or a timeout thrown, or the handler closes the client before the stream ends.")
 TRUSTED = ["model of __client_coroutine / request receivers / ThrowAction / build_lowlevel_stream_server_handler "
@@ -74,9 +84,10 @@ class HandlerError(Exception):
 
 
 class PeerTransport(AsyncStreamTransport):
-    def __init__(self, peer, backend, loop, port=2222):
+    def __init__(self, peer, backend, loop, port=2222, lenient=False):
         super().__init__()
         self.port = port
+        self.lenient = lenient      # a lenient transport still delivers queued data after aclose() (strict: EBADF)
         self.script = deque([list(x) for x in peer])
         self._backend = backend
         self._loop = loop
@@ -85,7 +96,7 @@ class PeerTransport(AsyncStreamTransport):
         self.sent = []
 
     async def recv_into(self, buffer):
-        if self._closed:
+        if self._closed and not self.lenient:
             raise OSError(_errno.EBADF, "closed transport")
         if not self.script:
             return 0
@@ -162,11 +173,11 @@ class MemListener(AsyncListener):
     async def _run(self, handler, tr):
         try:
             await handler(tr)
-            self.outcomes[tr.port] = None
+            self.outcomes[getattr(tr, "port", 2222)] = None
         except Exception as exc:
-            self.outcomes[tr.port] = exc
+            self.outcomes[getattr(tr, "port", 2222)] = exc
         finally:
-            self.end_times[tr.port] = self._loop.time()
+            self.end_times[getattr(tr, "port", 2222)] = self._loop.time()
             if len(self.end_times) == len(self.transports):
                 self.done.set()
 
@@ -288,7 +299,7 @@ async def _main(conn_inputs, loop):
     transports, conns = [], {}
     for i, ci in enumerate(conn_inputs):
         port = 2222 + i
-        transports.append(PeerTransport(ci[3], backend, loop, port))
+        transports.append(PeerTransport(ci[3], backend, loop, port, lenient=bool(ci[8]) if len(ci) > 8 else False))
         conns[port] = _Conn(ci[4], ci[5])
     listener = MemListener(backend, transports, loop)
     server = AsyncStreamServer(listener, protocol, max_recv_size=bufsize)
@@ -320,10 +331,156 @@ async def _main(conn_inputs, loop):
     return outs
 
 
+# ---------------------------------------------------------------- end-to-end over the REAL asyncio stream transport
+
+class TimeoutOnlyHandler(AsyncStreamRequestHandler):
+    """yields the given timeouts in turn, catches everything thrown, never closes: every request / parse error it sees is logged"""
+
+    def __init__(self, timeouts, loop):
+        self.timeouts = list(timeouts)
+        self.loop = loop
+        self.log = []
+        self.waiting = asyncio.Event()
+        self.deadline = None
+        self.nyield = 0
+
+    async def handle(self, client):
+        while True:
+            t = self.timeouts[self.nyield % len(self.timeouts)] if self.timeouts else []
+            self.nyield += 1
+            secs = None if t == [] else t[0] * TICK
+            self.deadline = None if secs is None else self.loop.time() + secs
+            self.waiting.set()
+            try:
+                req = yield secs
+            except GeneratorExit:
+                raise
+            except TimeoutError:
+                pass
+            except StreamProtocolParseError as exc:
+                self.log.append([1, sc.ERR_CODES.get(type(exc.error).__name__, 9)])
+            except Exception as exc:
+                self.log.append([9, type(exc).__name__.encode()])
+            else:
+                self.log.append([0, sc.canon_packet(req)])
+            finally:
+                self.waiting.clear()
+
+
+async def _main_e2e(inp, loop):
+    from c03 import KernelTransport
+    from easynetwork.lowlevel.api_async.backend._asyncio.stream.socket import (
+        AsyncioTransportStreamSocketAdapter, StreamReaderBufferedProtocol)
+    from easynetwork.lowlevel.api_async.backend.utils import new_builtin_backend
+    from easynetwork.lowlevel.api_async.servers.stream import AsyncStreamServer
+    from easynetwork.lowlevel.socket import new_socket_address
+    from easynetwork.servers.async_tcp import _ConnectedClientAPI
+    from easynetwork.servers.misc import build_lowlevel_stream_server_handler
+
+    _tag, conn, plan, timeouts = inp[:4]
+    kind, cfg, _dec, _peer, _acts, _oc, bufsize, impl = conn[:8]
+    ser = sc.make_serializer(kind, cfg, impl)
+    protocol = BufferedStreamProtocol(ser) if kind in (1, 3) else StreamProtocol(ser)
+    backend = new_builtin_backend("asyncio")
+    ktr = KernelTransport(loop)
+    proto = StreamReaderBufferedProtocol(loop=loop)
+    ktr.set_protocol(proto)
+    proto.connection_made(ktr)
+    adapter = AsyncioTransportStreamSocketAdapter(backend, ktr, proto)
+    listener = MemListener(backend, [adapter], loop)
+    server = AsyncStreamServer(listener, protocol, max_recv_size=bufsize)
+    rh = TimeoutOnlyHandler(timeouts, loop)
+
+    @contextlib.asynccontextmanager
+    async def initializer(lowlevel_client):
+        async with contextlib.AsyncExitStack() as stack:
+            address = new_socket_address(lowlevel_client.extra(INETSocketAttribute.peername),
+                                         lowlevel_client.extra(INETSocketAttribute.family))
+            client = _ConnectedClientAPI(address, lowlevel_client)
+            del lowlevel_client
+            stack.push_async_callback(client._on_disconnect)
+            yield client
+
+    handler = build_lowlevel_stream_server_handler(initializer, rh)
+    serve_task = asyncio.ensure_future(
+        server.serve(handler, disconnect_error_filter=lambda exc: isinstance(exc, ConnectionError)))
+
+    async def settle():
+        for _ in range(8):
+            await asyncio.sleep(0)
+
+    def deliver(chunk):
+        ktr.kbuf += chunk
+        ktr.read_ready()
+
+    async def wait_handler():
+        # the handler is suspended at its yield and the receiver has reached the transport
+        for _ in range(200):
+            if listener.done.is_set():
+                return False
+            if rh.waiting.is_set():
+                await settle()
+                if rh.waiting.is_set():
+                    return True
+            await asyncio.sleep(0)
+        return not listener.done.is_set()
+
+    pre = set()
+    for k, (chunk, mode) in enumerate(plan):
+        if k in pre:
+            # delivered by a timer armed earlier (before the handler's next yield armed its timeout)
+            for _ in range(400):
+                if not pre_pending[0]:
+                    break
+                await asyncio.sleep(TICK)
+            await settle()
+            continue
+        if not await wait_handler():
+            break
+        # arm the NEXT chunk at "now + the timeout the handler will yield next" before this one is read: its timer is
+        # pushed BEFORE the timeout's, the other order of the tie
+        pre_pending = [False]
+        if mode == 0 and k + 1 < len(plan) and plan[k + 1][1] == 4 and timeouts:
+            t_next = timeouts[rh.nyield % len(timeouts)]
+            if t_next != []:
+                pre_pending = [True]
+
+                def fire(ch=plan[k + 1][0], flag=pre_pending):
+                    flag[0] = False
+                    deliver(ch)
+                loop.call_at(loop.time() + t_next[0] * TICK, fire)
+                pre.add(k + 1)
+        d = rh.deadline
+        if mode in (0, 4) or d is None:
+            ktr.kbuf += chunk
+            loop.call_soon(ktr.read_ready)
+            await settle()
+        else:
+            when = d + (mode - 2) * TICK          # modes 1,2,3: one tick before / exactly at / one tick after the deadline
+            if when <= loop.time():
+                deliver(chunk)
+            else:
+                loop.call_at(when, deliver, chunk)
+                await asyncio.sleep(when - loop.time())
+            await settle()
+    await wait_handler()
+    ktr.peer_closed = True
+    ktr.schedule_read()
+    for _ in range(400):
+        if listener.done.is_set():
+            break
+        await asyncio.sleep(TICK)
+    serve_task.cancel()
+    await asyncio.gather(serve_task, return_exceptions=True)
+    return rh.log
+
+
 def run_impl(inp):
     with warnings.catch_warnings():
         warnings.simplefilter("ignore")
-        with detloop.running(max_steps=40000) as loop:
+        with detloop.running(max_steps=200000) as loop:
+            if inp[0] == 300:
+                return loop.run_until_complete(_main_e2e(inp, loop))
             if inp[0] == 100:
                 return loop.run_until_complete(_main([inp[1], inp[2]], loop))
             return loop.run_until_complete(_main([inp], loop))[0]
@@ -344,12 +501,12 @@ TMO = [[], [0], [4], [8]]
 ACTS = [[0, t] for t in TMO] + [[1], [2], [4]] + [[3, []], [3, [4]]]
 
 
-def mk(fr, buffered, peer, acts, oc, bufsize):
+def mk(fr, buffered, peer, acts, oc, bufsize, lenient=0):
     kind = fr["kinds"][1 if buffered else 0]
     cfg = list(fr["cfg"])
     if kind in (1, 3):
         cfg = cfg + [bufsize]
-    return [kind, cfg, fr["dec"], peer, acts, oc, bufsize, fr["impl"]]
+    return [kind, cfg, fr["dec"], peer, acts, oc, bufsize, fr["impl"], lenient]
 
 
 def build_peer(chunks, rng, end):
@@ -433,7 +590,11 @@ def _single_cases(tier, rng, escalate):
                                 "handler-closes" if kinds & {2, 3} else "no-close",
                                 "handler-raises" if 4 in kinds else "no-raise",
                                 "finite-timeouts" if any(a[0] in (0, 3) and a[1] != [] for a in acts) else "no-timeouts"]
-                        yield dict(input=mk(fr, buffered, peer, acts, oc, bufsize), tags=tags,
+                        lenient = int(rng.random() < 0.4)
+                        tags.append("lenient-transport" if lenient else "strict-transport")
+                        if acts and acts[0][0] in (2, 3):
+                            tags.append("closes-before-first-yield")
+                        yield dict(input=mk(fr, buffered, peer, acts, oc, bufsize, lenient), tags=tags,
                                    nontrivial=bool(len(frames) >= 1 and (kinds - {0} or any(f in fr["bad"] for f in frames)
                                                                          or "finite-timeouts" in tags)))
 
@@ -443,7 +604,67 @@ def _span(peer):
     return (min(times), max(times)) if times else (0, 0)
 
 
+def _e2e_cases(tier, rng, escalate):
+    """one connection over the real asyncio stream transport; the handler only yields timeouts; each chunk is read
+    immediately (0), one tick before (1) / exactly at (2) / one tick after (3) the expiry of the pending timeout, or exactly at
+    the expiry of the NEXT timeout with its timer armed before the timeout's (4)"""
+    thorough = tier == "thorough" or escalate
+    n = 3000 if thorough else 600
+    for fr in FRAMINGS:
+        pool = fr["valid"] + fr["bad"] + fr["empty"]
+        for _ in range(n // 3):
+            frames = [rng.choice(pool) for _ in range(rng.randint(1, 4))]
+            stream = b"".join(frames)
+            r = rng.random()
+            if r < 0.3:
+                chunks = list(frames)
+            elif r < 0.4:
+                chunks = [stream[i:i + 1] for i in range(len(stream))]
+            else:
+                chunks = sc.cuts_to_chunks(stream, [c for c in range(1, len(stream)) if rng.random() < 0.4])
+            plan = [[ch, rng.choice([0, 1, 2, 2, 3, 4, 4])] for ch in chunks]
+            for k in range(1, len(plan)):
+                if plan[k][1] == 4 and rng.random() < 0.8:
+                    plan[k - 1][1] = 0        # the timer-before tie needs the previous chunk read at once
+            timeouts = rng.choice([[[4]], [[4], []], [[4], [8]], [[2], [4], [4]]])
+            buffered = rng.random() < 0.5
+            bufsize = rng.choice([1, 2, 3, 4, 64])
+            peer = [[0, ch, 0] for ch, _m in plan] + [[1, 0]]
+            conn = mk(fr, buffered, peer, [], 0, bufsize)
+            modes = {m for _c, m in plan}
+            tags = ["real-asyncio-transport", fr["name"], "buffered" if buffered else "copying", f"bufsize{bufsize}"]
+            if 2 in modes:
+                tags.append("read-tied-with-timeout-expiry(timer-after)")
+            if 4 in modes:
+                tags.append("read-tied-with-timeout-expiry(timer-before)")
+            yield dict(input=[300, conn, plan, timeouts], tags=tags, nontrivial=bool(modes & {1, 2, 3, 4}))
+
+
+def _mixed_chunk_cases(tier, rng, escalate):
+    """one chunk holding every sequence of <= 4 valid / malformed / empty frames, two well-behaved handlers"""
+    for fr in FRAMINGS:
+        pool = [fr["valid"][0], fr["bad"][0], fr["valid"][1]] + fr["empty"][:1]
+        for n in (2, 3, 4):
+            seqs = list(itertools.product(pool, repeat=n))
+            if n == 4 and tier != "thorough" and not escalate:
+                rng.shuffle(seqs)
+                seqs = seqs[:60]
+            for frames in seqs:
+                stream = b"".join(frames)
+                for acts in ([[0, []]] * (n + 2), [[0, []], [1]] * (n + 2)):
+                    buffered = rng.random() < 0.5
+                    peer = [[0, stream, 0], [1, 1]]
+                    yield dict(input=mk(fr, buffered, peer, acts, 0, 64), nontrivial=any(f in fr["bad"] for f in frames),
+                               tags=[fr["name"], "buffered" if buffered else "copying", "mixed-frames-one-chunk"])
+
+
 def cases(tier, rng, escalate):
+    yield from _multi_cases(tier, rng, escalate)
+    yield from _mixed_chunk_cases(tier, rng, escalate)
+    yield from _e2e_cases(tier, rng, escalate)
+
+
+def _multi_cases(tier, rng, escalate):
     """single connections, then pairs of connections served concurrently by one server (same protocol and
     max_recv_size, independent peers and handler strategies)"""
     thorough = tier == "thorough" or escalate
@@ -476,7 +697,22 @@ def cases(tier, rng, escalate):
 
 # ---------------------------------------------------------------- the property, stated on the implementation
 
+def _oracle_e2e(inp):
+    _tag, conn, plan, timeouts = inp[:4]
+    kind, cfg, _dec, _peer, _acts, _oc, bufsize, impl = conn[:8]
+    stream = b"".join(ch for ch, _m in plan)
+    expected, _left = sc.spec_events_py(kind, cfg, impl, stream)
+    exp = [[0, e[1]] if e[0] == 0 else [1, 1] for e in expected]
+    got = run_impl(inp)
+    if got != exp:
+        return (f"real asyncio transport: the handler (which only yields timeouts) saw {got}, the peer sent {exp} then "
+                f"closed: a request was lost / invented / reordered when a yielded timeout expired")
+    return None
+
+
 def oracle(inp):
+    if inp[0] == 300:
+        return _oracle_e2e(inp)
     if inp[0] == 100:
         both = run_impl(inp)
         for i, ci in enumerate(inp[1:3]):
@@ -530,6 +766,12 @@ def _check(inp, out):
                 return f"a new generator ({ev[1]}) was started after the handler had closed the client"
         elif ev[0] in (2, 3):
             now = ev[3]
+            if handler_closed:
+                return (f"generator {ev[1]} was resumed with {'a request' if ev[0] == 2 else 'a thrown ' + str(ev[2])} "
+                        f"after the handler had closed the client")
+            if ev[0] == 3 and ev[2] == [4]:
+                return f"RuntimeError thrown into the handler (generator {ev[1]}) instead of a request"
+
             if waiting is not None:
                 t0, t = waiting
                 if t != [] and now > t0 + t[0]:
@@ -560,6 +802,18 @@ def signature(inp, failure):
 
 
 def shrink(inp):
+    if inp[0] == 300:
+        _tag, conn, plan, timeouts = inp[:4]
+        for i in range(len(plan) - 1):
+            merged = [plan[i][0] + plan[i + 1][0], plan[i + 1][1]]
+            peer = [[0, ch, 0] for ch, _m in plan[:i] + [merged] + plan[i + 2:]] + [[1, 0]]
+            c2 = list(conn)
+            c2[3] = peer
+            yield [300, c2, plan[:i] + [merged] + plan[i + 2:], timeouts]
+        for i in range(len(plan)):
+            if plan[i][1] != 0:
+                yield [300, conn, plan[:i] + [[plan[i][0], 0]] + plan[i + 1:], timeouts]
+        return
     if inp[0] == 100:
         yield inp[1]
         yield inp[2]
@@ -569,9 +823,10 @@ def shrink(inp):
             yield [100, inp[1], cand]
         return
     kind, cfg, dec, peer, acts, oc, bufsize, impl = inp[:8]
+    rest = list(inp[8:])
     for i in range(len(acts)):
-        yield [kind, cfg, dec, peer, acts[:i] + acts[i + 1:], oc, bufsize, impl]
+        yield [kind, cfg, dec, peer, acts[:i] + acts[i + 1:], oc, bufsize, impl] + rest
     for i in range(len(peer) - 1):
         if peer[i][0] == 0 and peer[i + 1][0] == 0:
             merged = [0, peer[i][1] + peer[i + 1][1], peer[i + 1][2]]
-            yield [kind, cfg, dec, peer[:i] + [merged] + peer[i + 2:], acts, oc, bufsize, impl]
+            yield [kind, cfg, dec, peer[:i] + [merged] + peer[i + 2:], acts, oc, bufsize, impl] + rest
